@@ -353,6 +353,12 @@ func nextStep(t *rapid.T, st *tstate, o TravOpts) ([]model.Step, bool) {
 	})
 	add(1, func() ([]model.Step, bool) {
 		st.pathOK = false
+		if rapid.IntRange(0, 2).Draw(t, "openUnwind") == 0 {
+			// unwind of a field that may be missing, empty or no list: what the unwound
+			// field holds afterwards is undocumented, but nothing else may change -
+			// useful when followed by a step that leaves the element (select, moves)
+			return []model.Step{model.S("unwind", rapid.SampledFrom([]string{"l", "l", "k", "s"}).Draw(t, "unwindField"))}, false
+		}
 		return []model.Step{model.S("hasKey", "l"), model.S("unwind", "l")}, false
 	})
 	if !o.NoOrder {
